@@ -77,7 +77,7 @@ Theorem C14_unquote_low_escapes_general : forall (unsafe required : list N) (s :
   mem 37%N unsafe = true -> (forall c, mem c required = true -> mem c unsafe = true) -> mem 32%N required = true ->
   forallb lowP (tokens s) = true ->
   unquote_ok required s (safely_unquote unsafe s) = true.
-Proof. exact safely_unquote_low_ok. Qed.
+Proof. intros unsafe required s H1 H2 H3 H4. exact (safely_unquote_low_ok unsafe required H1 H2 s H3 H4). Qed.
 
 (* the hypothesis is about escapes only: raw text of any kind is allowed *)
 Example C14_low_escapes_example :
